@@ -79,6 +79,17 @@ def gen_config(rng, names, allow_stop=True):
     r = rng.random()
     if r < 0.1:
         cfg["linesep"] = "\n"
+    if rng.random() < 0.25:
+        ind = workload.random_indent_config(rng)
+        if ind:
+            cfg["indent"] = ind
+    if rng.random() < 0.3:
+        # documented option values of a few rules
+        cand = [x for x in runner.RULES if x[1] != 0 and any(o in workload.option_domains() for o in x[6])]
+        for x in rng.sample(cand, min(len(cand), rng.choice([1, 3, 10]))):
+            o = workload.random_options(rng, x, 0.7)
+            if o:
+                cfg.setdefault("rule", {}).setdefault(x[0], {}).update(o)
     if not cfg:
         return None, None
     return cfg, stop
